@@ -259,6 +259,13 @@ func newInst(c config) *inst {
 	}
 	if want == "err" {
 		rt.Close(ctx)
+		if c.Min > c.Limit {
+			// no model needed: an instance whose memory is larger than the configured limit exists
+			rep.Violate(hx.Violation{Kind: "impl-violation", Signature: "C14:memory-above-the-configured-limit-instantiated",
+				What:  fmt.Sprintf("a module whose memory has a minimum of %d pages was instantiated by a runtime configured WithMemoryLimitPages(%d)", c.Min, c.Limit),
+				Input: c, Expected: "rejected", Actual: fmt.Sprintf("instantiated; memory.size = %d bytes", mod.Memory().Size())})
+			return nil
+		}
 		rep.Violate(hx.Violation{Kind: "correspondence", Signature: "C14:instantiate-accepts", What: "runtime accepted a memory the model rejects", Input: c})
 		return nil
 	}
@@ -676,6 +683,8 @@ func main() {
 	lims := []lim{
 		{0, nil, 3}, {1, u(3), 65536}, {1, u(10), 5}, {2, u(2), 65536}, {0, u(0), 65536}, {1, nil, 1},
 		{3, u(65536), 4}, {1, u(4), 65536},
+		// the smallest limit: WithMemoryLimitPages(0) is a valid setting ("no memory pages ever"), not "unset"
+		{0, nil, 0}, {0, u(5), 0}, {0, u(0), 0}, {1, nil, 0}, {1, u(1), 0},
 	}
 	big := []lim{{65535, u(65536), 65536}, {65534, nil, 65536}, {65536, u(65536), 65536}}
 	if hx.Thorough() {
